@@ -7,6 +7,7 @@ import (
 
 	"github.com/AdguardTeam/urlfilter"
 	"github.com/AdguardTeam/urlfilter/filterlist"
+	"github.com/AdguardTeam/urlfilter/filterutil"
 	"github.com/AdguardTeam/urlfilter/rules"
 
 	"verifsim/core"
@@ -430,6 +431,63 @@ func runC19Seq(ch *core.Chooser, env *Env, out *Outcome) *Outcome {
 	lists := drawLists(ch, hosts, workload.AllKinds, 3, 1, maxLines, 0)
 	drawFaultLists(ch, lists)
 	opKinds := []int{workload.OpDNS, workload.OpDNS, workload.OpDNS, workload.OpMatchAll, workload.OpMatchAll, workload.OpWeb, workload.OpMatch, workload.OpCosmetic}
+	// Now and then a rule that is reachable through TWO keys of an index (a
+	// $domain rule permitted on two domains, a hosts line with two names),
+	// preceded in the bucket of the second key by a rule that lives there
+	// only.  The history asks through the first key early and through the
+	// second key late: with the fault in between, the rule is in memory, its
+	// neighbour is not.
+	var twoKey [2]*workload.Op
+	if ch.Intn("c19.twokey", 8) == 7 {
+		li := 0
+		for i := range lists {
+			if lists[i].File || lists[i].Faulty {
+				li = i
+			}
+		}
+		x, d := hosts[ch.Intn("twokey.x", len(hosts))], hosts[ch.Intn("twokey.d", len(hosts))]
+		if x != d && !strings.HasSuffix(x, "."+d) && !strings.HasSuffix(d, "."+x) {
+			t := lists[li].Text
+			if t != "" && !strings.HasSuffix(t, "\n") {
+				t += "\n"
+			}
+			switch kind := ch.Intn("twokey.kind", 3); {
+			case kind == 2:
+				// not one rule under two keys but two rules under ONE key:
+				// host names whose 32-bit hashes collide, the second one in
+				// the list that is going to fail
+				a, b := "c89959.example.org", "c2012306.example.org"
+				if filterutil.FastHash(a) == filterutil.FastHash(b) {
+					oi := (li + 1) % len(lists)
+					ot := lists[oi].Text
+					if ot != "" && !strings.HasSuffix(ot, "\n") {
+						ot += "\n"
+					}
+					if oi == li {
+						t += "10.66.1.1 " + a + "\n"
+					} else {
+						lists[oi].Text = ot + "10.66.1.1 " + a + "\n"
+					}
+					t += "10.66.1.2 " + b + "\n"
+					twoKey[0] = &workload.Op{Kind: workload.OpDNS, Host: a, DNSType: 1}
+					twoKey[1] = &workload.Op{Kind: workload.OpDNS, Host: b, DNSType: 1}
+				}
+			case kind == 0:
+				pat := []string{"/ad^", "=1"}[ch.Intn("twokey.pat", 2)]
+				url := map[string]string{"/ad^": "/ad/x.gif", "=1": "/path/AdS.js?x=1"}[pat]
+				t += "|ws$domain=" + d + "\n" + pat + "$domain=" + x + "|" + d + "\n"
+				h := hosts[ch.Intn("q.host", len(hosts))]
+				twoKey[0] = &workload.Op{Kind: workload.OpMatchAll, URL: "https://" + h + url, Src: "https://" + x + "/page", Type: rules.TypeScript}
+				twoKey[1] = &workload.Op{Kind: workload.OpMatchAll, URL: "https://" + h + url, Src: "https://" + d + "/page", Type: rules.TypeScript}
+			default:
+				t += "10.66.0.2 k2." + d + "\n10.66.0.1 k1." + x + " k2." + d + "\n"
+				twoKey[0] = &workload.Op{Kind: workload.OpDNS, Host: "k1." + x, DNSType: 1}
+				twoKey[1] = &workload.Op{Kind: workload.OpDNS, Host: "k2." + d, DNSType: 1}
+			}
+			lists[li].Text = t
+			out.Probes["bases_with_a_rule_reachable_through_two_keys"]++
+		}
+	}
 	allLines := planLines(lists)
 	var hist []workload.Op
 	pct := []int{70, 85, 93}[ch.Intn("hist.pct", 3)]
@@ -455,6 +513,18 @@ func runC19Seq(ch *core.Chooser, env *Env, out *Outcome) *Outcome {
 		ch.End()
 	}
 
+	if twoKey[0] != nil {
+		// first key right away, second key at the end (requests that go
+		// through the second key in between are dropped: they would
+		// materialise the neighbour)
+		var kept []workload.Op
+		for _, o := range hist {
+			if !strings.Contains(o.Src, twoKey[1].Src) && o.Host != twoKey[1].Host {
+				kept = append(kept, o)
+			}
+		}
+		hist = append(append([]workload.Op{*twoKey[0]}, kept...), *twoKey[1])
+	}
 	// after the fault the tail of the history is asked again and again in some
 	// runs: error counters, back-off and circuit breakers need many failures
 	reps := []int{1, 1, 1, 1, 1, 1, 6, 40}[ch.Intn("c19.reps", 8)]
